@@ -10,7 +10,6 @@ import (
 	"math"
 	"os"
 	"path/filepath"
-	"strings"
 	"sync"
 	"sync/atomic"
 	"time"
@@ -1018,9 +1017,9 @@ func (w *WAL) getEntriesFromFile(filename string, minSequence uint64) ([]*Entry,
 			if err == io.EOF {
 				break
 			}
-			// Skip corrupted entries but continue reading
-			if strings.Contains(err.Error(), "corrupt") || strings.Contains(err.Error(), "invalid") {
-				continue
+			// A torn or damaged record ends the usable part of the file
+			if isDamage(err) {
+				break
 			}
 			return entries, err
 		}
